@@ -341,7 +341,22 @@ func (g *gen) seqPools(errs bool) (texts, pats []sarg, flags []*sarg) {
 
 func (g *gen) sequence() seqSpec {
 	fn := hx.Pick(g.r, []string{"like", "like", "instr", "substr", "replace"})
-	sp := seqSpec{fn: fn, tc: g.r.Chance(1, 5), pc: g.r.Chance(1, 4), fc: g.r.Chance(1, 4), rc: g.r.Chance(1, 2)}
+	sp := seqSpec{fn: fn, rc: g.r.Chance(1, 2)}
+	switch k := g.r.Intn(20); {
+	case k < 7: // everything per row
+	case k < 10: // constant pattern, per-row flags
+		sp.pc = true
+	case k < 13: // per-row pattern, constant flags
+		sp.fc = true
+	case k < 17: // constant pattern and flags (regex compiled once), per-row subject
+		sp.pc, sp.fc = true, true
+	case k < 18: // only position / occurrence / replacement per row
+		sp.pc, sp.fc, sp.tc, sp.rc = true, true, true, false
+	case k < 19: // all constant (result cached)
+		sp.pc, sp.fc, sp.tc, sp.rc = true, true, true, true
+	default:
+		sp.tc, sp.pc, sp.fc = g.r.Chance(1, 2), g.r.Chance(1, 2), g.r.Chance(1, 2)
+	}
 	texts, pats, flags := g.seqPools(true)
 	withFlags := g.r.Chance(5, 6)
 	nInts := maxInts[fn]
@@ -492,19 +507,11 @@ func (w *world) statements(e *eng.Eng, g *gen, serial int) {
 		e.MustExec(ctx, fmt.Sprintf("INSERT INTO %s VALUES (%d, %s, %s, %s)", t, i+1, sqlStr(r.text), sqlStr(r.pat), sqlStr(*r.flags)))
 	}
 	// 1. projection of the four functions, ascending and descending
-	for _, desc := range []bool{false, true} {
-		cols := make([]string, len(stmtFns))
-		for i, fn := range stmtFns {
-			cols[i] = stmtExpr(fn, "s", "p", "f")
-		}
-		q := "SELECT id, " + strings.Join(cols, ", ") + " FROM " + t + " ORDER BY id"
-		if desc {
-			q += " DESC"
-		}
+	project := func(q string, rows []seqRow, pc, fc bool) {
 		r := e.Query(ctx, q)
 		w.out.Stat("stmt:projection")
 		for k, fn := range stmtFns {
-			sp := seqSpec{fn: fn, rc: true}
+			sp := seqSpec{fn: fn, rc: true, pc: pc, fc: fc}
 			obs := make([]res, 0, n)
 			ok := r.Class() == "ok" && len(r.Raw) == n
 			for j := 0; j < n && ok; j++ {
@@ -518,6 +525,7 @@ func (w *world) statements(e *eng.Eng, g *gen, serial int) {
 				obs = append(obs, mkRes(normVal(raw[1+k]), nil))
 			}
 			if !ok {
+				sp.rows = nil
 				for _, x := range rows {
 					sp.rows = append(sp.rows, stmtRow(fn, x))
 				}
@@ -532,17 +540,41 @@ func (w *world) statements(e *eng.Eng, g *gen, serial int) {
 			id := w.out.Case(w.seqPayload("seq", sp), obsList(obs), some)
 			for j, x := range sp.rows {
 				if lit := w.evalReal(x.call(fn)); lit.obs != obs[j].obs {
-					w.fail(id, "-", "%s: the row (s,p,f) = (%s, %s, %s) gets %s = %s, the same call with literal arguments = %s",
-						q, sqlStr(x.text), sqlStr(x.pat), sqlStr(*x.flags), stmtExpr(fn, "s", "p", "f"), obs[j].obs, lit.obs)
+					w.fail(id, "-", "%s: the row (s,p,f) = (%s, %s, %s) gets %s, the same call with literal arguments = %s",
+						q, sqlStr(x.text), sqlStr(x.pat), sqlStr(*x.flags), obs[j].obs, lit.obs)
 					break
 				}
 			}
 		}
 	}
+	for _, desc := range []bool{false, true} {
+		cols := make([]string, len(stmtFns))
+		for i, fn := range stmtFns {
+			cols[i] = stmtExpr(fn, "s", "p", "f")
+		}
+		q := "SELECT id, " + strings.Join(cols, ", ") + " FROM " + t + " ORDER BY id"
+		if desc {
+			q += " DESC"
+		}
+		project(q, rows, false, false)
+	}
 	// 2. WHERE filters: literal pattern + per-row flags behind a range condition; all columns
 	lp := hx.Pick(g.r, pats)
 	for lp.null {
 		lp = sarg{s: "b"}
+	}
+	// 1b. literal pattern and flags (regex compiled once for the statement) over the subject column
+	{
+		lf := hx.Pick(g.r, flags)
+		var sub []seqRow
+		for _, r := range rows {
+			sub = append(sub, seqRow{text: r.text, pat: lp, flags: lf})
+		}
+		cols := make([]string, len(stmtFns))
+		for i, fn := range stmtFns {
+			cols[i] = stmtExpr(fn, "s", sqlStr(lp), sqlStr(*lf))
+		}
+		project("SELECT id, "+strings.Join(cols, ", ")+" FROM "+t+" ORDER BY id", sub, true, true)
 	}
 	k := g.r.Range(2, n)
 	type where struct {
